@@ -134,7 +134,7 @@ def tiny_cut(r):
     """the vertex the floating-point simplex will stop at is cut off by 10^-e: feasible LPs whose optimum differs from the
     "double" optimum by less than any tolerance (near-degenerate vertices, rows with basic slacks that are exactly violated)"""
     n = r.randint(2, 5)
-    kind = r.choice(["box_sum", "box_sum_range", "linked_eq", "two_cuts", "eq_basic", "eq_basic"])
+    kind = r.choice(["box_sum", "box_sum_range", "linked_eq", "two_cuts", "eq_basic", "eq_basic", "eq_logical", "eq_logical"])
     e = r.choice([10, 11, 12, 13, 15, 20, 30])
     eps = F(1, 10 ** e) if r.random() < .6 else F(1, 2 ** r.choice([20, 24, 30, 40]))       # decimal or dyadic (exactly representable in a double)
     lp = _mk(0, n, True)
@@ -161,6 +161,16 @@ def tiny_cut(r):
         add([(0, F(1)), (1, F(1))], "E", F(1) - eps)
         for j in range(2, n):
             add([(j, F(1)), (0, F(r.choice([0, 1])))], "L", F(2))
+    elif kind == "eq_logical":
+        # an equality whose basic LOGICAL is just off zero at the slack basis the floating-point solve stops at:
+        # min c.x (c > 0), 0 <= x <= 1, sum +-x_j = +-eps  (x = 0 looks optimal and feasible to a double; the logical sits at +-eps)
+        lp["max"] = False
+        sg = r.choice([1, 1, -1])
+        js = r.sample(range(n), r.randint(1, n))
+        add([(j, F(sg)) for j in js], "E", sg * eps)
+        if r.random() < .5:
+            add(allj, "L", F(n))
+        return lp
     elif kind == "linked_eq":
         lp["lo"][1], lp["up"][1] = NINF, INF
         lp["obj"] = [F(1)] + [F(0)] * (n - 1)
@@ -416,6 +426,20 @@ def build_cmds(lp, h="h0", how="load"):
             lines.append("add_col %s %d %s %s %s %s %s" % (h, len(e), " ".join("%d %s" % (i, qstr(v)) for i, v in e), qstr(lp["obj"][j]), qstr(lp["lo"][j]), qstr(lp["up"][j]), lp["cname"][j]))
         else:
             lines.append("new_col %s %s %s %s %s" % (h, qstr(lp["obj"][j]), qstr(lp["lo"][j]), qstr(lp["up"][j]), lp["cname"][j]))
+    if how == "resense":                      # columns first, then every row with ANOTHER sense, then change_sense (+ change_range) to the wanted one:
+        for j in range(n):                    # the internal logical column (coefficient, bounds) is rewritten by the edit, the query API only shows the sense
+            addcol(j, [])
+        first = {"L": "G", "G": "E", "E": "R", "R": "L"}
+        for i in range(m):
+            e = [(j, v) for j, v in lp["A"][i]]
+            s0 = first[lp["sense"][i]]
+            lines.append("add_ranged_row %s %d %s %s %s %s %s" % (h, len(e), " ".join("%d %s" % (j, qstr(v)) for j, v in e),
+                                                                 qstr(lp["rhs"][i]), s0, qstr(F(3) if s0 == "R" else F(0)), lp["rname"][i]))
+        for i in range(m):
+            lines.append("change_sense %s %d %s" % (h, i, lp["sense"][i]))
+            if lp["sense"][i] == "R":
+                lines.append("change_range %s %d %s" % (h, i, qstr(lp["range"][i])))
+        return lines
     if how == "create":                       # columns first, then rows: internal column k is structural k
         for j in range(n):
             addcol(j, [])
